@@ -126,12 +126,12 @@ class Prior(HoloPyObject):
     def __array_ufunc__(self, ufunc, method, *args, name=None, **kwargs):
         if method == "__call__" and len(kwargs) == 0:
             operation = _UFUNC_OPERATORS.get(ufunc)
-            if (operation is not None and name is None and len(args) == 2
-                    and all(isinstance(arg, (Prior, Number)) for arg in args)):
-                # numpy_scalar * prior etc. arrive here and not in __rmul__:
-                # treat them like the same operation with a python number
-                # (adding 0 or multiplying by 1 gives the prior itself,
-                # multiplying by 0 raises)
+            if operation is not None and name is None and len(args) == 2:
+                # numpy_scalar * prior, array * prior, np.multiply(prior, x)
+                # etc. arrive here and not in __rmul__: treat them like the
+                # same operation written with * (adding 0 or multiplying by
+                # 1 gives the prior itself, multiplying by 0 raises, arrays
+                # give arrays of priors, unsupported types raise)
                 left, right = [arg.item() if isinstance(arg, np.generic)
                                else arg for arg in args]
                 # (call the prior's own method: the operator of a numpy
